@@ -202,7 +202,7 @@ theorem ph_features_saslPlain {c enc auth sess s} (h : Ph c enc .idle auth sess 
   obtain ⟨h1, h2, h3, h4, h5, h6, h7, h8⟩ := h
   have e : step s (.recv (.features { mechs := some .plain })) =
       ({ s with listener := .sasl .plain true }, [send s (.saslAuth .plain)]) := by
-    simp [step, recv, h2, h3, hh, dispatch, h5, idleHandle, idleGuarded, El.isStanza, idleHandle', handleFeatures, hst, h1, hsasl, startSasl, mechUsable, hplain]
+    simp [step, recv, h2, h3, hh, dispatch, h5, idleHandle, idleGuarded, El.isStreamLevel, St.preTls, idleHandle', handleFeatures, hst, h1, hsasl, startSasl, mechUsable, hplain]
   rw [e]
   exact ⟨⟨h1, h2, h3, h4, rfl, h6, h7, h8⟩, hh⟩
 
@@ -225,7 +225,7 @@ theorem ph_features_bind {c enc auth sess s} (h : Ph c enc .idle auth sess s) (h
   obtain ⟨h1, h2, h3, h4, h5, h6, h7, h8⟩ := h
   have e : (step s (.recv (.features { bind := true }))).1 =
       { s with bindAvail := true, smAvail := false, csiAvail := false, listener := .bind } := by
-    simp [step, recv, h2, h3, hh, dispatch, h5, idleHandle, idleGuarded, El.isStanza, idleHandle', handleFeatures, hst, startBind]
+    simp [step, recv, h2, h3, hh, dispatch, h5, idleHandle, idleGuarded, El.isStreamLevel, St.preTls, idleHandle', handleFeatures, hst, startBind]
   rw [e]
   exact ⟨⟨h1, h2, h3, h4, rfl, h6, h7, h8⟩, hh, rfl⟩
 
@@ -286,7 +286,7 @@ theorem ph_features_starttls {c auth sess s} (h : Ph c false .idle auth sess s) 
     unfold handleStarttls
     simp [h4, h1, hl, ht]
   have e : step s (.recv (.features { tls := .optional })) = ({ s with listener := .starttls }, [send s .startTls]) := by
-    simp [step, recv, h2, h3, hh, dispatch, h5, idleHandle, idleGuarded, El.isStanza, idleHandle', handleFeatures, hst]
+    simp [step, recv, h2, h3, hh, dispatch, h5, idleHandle, idleGuarded, El.isStreamLevel, St.preTls, idleHandle', handleFeatures, hst]
   rw [e]
   exact ⟨⟨h1, h2, h3, h4, rfl, h6, h7, h8⟩, hh⟩
 
@@ -326,7 +326,7 @@ theorem ph_features_sasl2 {c enc auth sess s} (h : Ph c enc .idle auth sess s) (
   obtain ⟨h1, h2, h3, h4, h5, h6, h7, h8⟩ := h
   have e : (step s (.recv (.features { sasl2 := some s2z }))).1 =
       { s with bind2InactiveSet := s.cfg.inactive, tokenRequested := false, listener := .sasl2 .plain true } := by
-    simp [step, recv, h2, h3, hh, dispatch, h5, idleHandle, idleGuarded, El.isStanza, idleHandle', handleFeatures, hst, h1, hs2, startSasl2, s2z, mechUsable, hplain]
+    simp [step, recv, h2, h3, hh, dispatch, h5, idleHandle, idleGuarded, El.isStreamLevel, St.preTls, idleHandle', handleFeatures, hst, h1, hs2, startSasl2, s2z, mechUsable, hplain]
   rw [e]
   exact ⟨⟨h1, h2, h3, h4, rfl, h6, h7, h8⟩, hh⟩
 
@@ -356,7 +356,7 @@ theorem ph_features_sm_done {c enc auth s} (h : Ph c enc .idle auth false s) (hh
   obtain ⟨h1, h2, h3, h4, h5, h6, h7, h8⟩ := h
   have e : step s (.recv (.features { sm := true })) =
       openSession { s with bindAvail := false, smAvail := true, csiAvail := false } := by
-    simp [step, recv, h2, h3, hh, dispatch, h5, idleHandle, idleGuarded, El.isStanza, idleHandle', handleFeatures, hst, hsm]
+    simp [step, recv, h2, h3, hh, dispatch, h5, idleHandle, idleGuarded, El.isStreamLevel, St.preTls, idleHandle', handleFeatures, hst, hsm]
   rw [e]
   have sp := openSession_spec { s with bindAvail := false, smAvail := true, csiAvail := false }
   have co := sp.2.2.1
@@ -497,7 +497,7 @@ theorem out_features_saslPlain {c enc auth sess s} (h : Ph c enc .idle auth sess
   have hst := noStarttls h { mechs := some .plain } rfl htls
   obtain ⟨h1, h2, h3, h4, h5, h6, h7, h8⟩ := h
   exact ⟨.saslAuth .plain, by
-    simp [step, recv, h2, h3, hh, dispatch, h5, idleHandle, idleGuarded, El.isStanza, idleHandle', handleFeatures, hst, h1, hsasl, startSasl, mechUsable, hplain]⟩
+    simp [step, recv, h2, h3, hh, dispatch, h5, idleHandle, idleGuarded, El.isStreamLevel, St.preTls, idleHandle', handleFeatures, hst, h1, hsasl, startSasl, mechUsable, hplain]⟩
 
 theorem out_saslSuccess {c enc fr auth sess s} (h : Ph c enc (.sasl .plain fr) auth sess s) (hh : s.headerSeen = true) :
     nC (step s (.recv (.saslSuccess true))).2 = 0 ∧ nD (step s (.recv (.saslSuccess true))).2 = 0 := by
@@ -514,7 +514,7 @@ theorem out_features_bind {c enc auth sess s} (h : Ph c enc .idle auth sess s) (
   obtain ⟨h1, h2, h3, h4, h5, h6, h7, h8⟩ := h
   have e : (step s (.recv (.features { bind := true }))).2 =
       [send { s with bindAvail := true, smAvail := false, csiAvail := false } .bind] := by
-    simp [step, recv, h2, h3, hh, dispatch, h5, idleHandle, idleGuarded, El.isStanza, idleHandle', handleFeatures, hst, startBind]
+    simp [step, recv, h2, h3, hh, dispatch, h5, idleHandle, idleGuarded, El.isStreamLevel, St.preTls, idleHandle', handleFeatures, hst, startBind]
   rw [e]
   simp
 
@@ -633,10 +633,14 @@ theorem idleGuarded_done (s : St) (e : El) (hl : s.listener = .idle) : Done s (i
 theorem idleHandle_done (s : St) (e : El) (hl : s.listener = .idle) : Done s (idleHandle s e) := by
   unfold idleHandle
   split
-  · exact done_of_zero (by simp)
   · split <;> exact done_of_zero (by simp)
+  · split
+    · exact done_of_zero (by simp)
+    · split <;> exact done_of_zero (by simp)
+  · split
+    · exact done_of_zero (by simp)
+    · split <;> exact done_of_zero (by simp)
   · split <;> exact done_of_zero (by simp)
-  · exact done_of_zero (by simp)
   · exact idleGuarded_done s _ hl
 
 theorem starttlsHandle_done (s : St) (e : El) : Done s (starttlsHandle s e) := by
@@ -758,7 +762,7 @@ theorem step_done (s : St) (e : Ev) :
   | socketError => left; simp [step]
   | socketDisconnected => left; simp only [step]; cnt_crush
   | sendIq => left; simp only [step, sendIq]; cnt_crush
-  | recvWhitespace => left; simp only [step]; split <;> simp
+  | recvWhitespace => left; simp [step]
   | recvPartial => left; simp only [step]; split <;> simp
   | closeTail => left; simp [step]
   | recv el =>
@@ -929,12 +933,20 @@ theorem idleGuarded_effD (s : St) (e : El) : EffD s.sessionStarted (idleGuarded 
 theorem idleHandle_effD (s : St) (e : El) : EffD s.sessionStarted (idleHandle s e) := by
   unfold idleHandle
   split
-  · exact sendStanza_effD s _
+  · split
+    · exact reject_effD s
+    · exact sendStanza_effD s _
+  · split
+    · exact reject_effD s
+    · split
+      · exact reject_effD s
+      · exact effD_quiet (by simp) rfl
+  · split
+    · exact reject_effD s
+    · split <;> exact effD_quiet (by simp) rfl
   · split
     · exact reject_effD s
     · exact effD_quiet (by simp) rfl
-  · split <;> exact effD_quiet (by simp) rfl
-  · exact effD_quiet (by simp) rfl
   · exact idleGuarded_effD s _
 
 theorem starttlsHandle_effD (s : St) (e : El) : EffD s.sessionStarted (starttlsHandle s e) := by
@@ -1068,11 +1080,7 @@ theorem step_effD (s : St) (e : Ev) : EffD s.sessionStarted (step s e) := by
     split
     · exact effD_quiet (by simp) h
     · exact effD_quiet (by simp) h
-  | recvWhitespace =>
-    simp only [step]
-    split
-    · exact effD_quiet (by simp) rfl
-    · exact reject_effD s
+  | recvWhitespace => exact effD_quiet (by simp [step]) rfl
   | recvPartial => simp only [step]; split <;> exact effD_quiet (by simp) rfl
   | closeTail => exact disconnectFromHost_effD s
   | recv el =>
@@ -1150,14 +1158,23 @@ theorem idleGuarded_nf (s : St) (e : El) (hl : s.listener = .idle) (hnf : ∀ f,
 
 theorem idleHandle_nf (s : St) (e : El) (hl : s.listener = .idle) (hnf : ∀ f, e ≠ .features f) :
     (idleHandle s e).1.listener = .idle ∧ nC (idleHandle s e).2 = 0 := by
+  have hrej : (reject s).1.listener = .idle ∧ nC (reject s).2 = 0 := ⟨by rw [reject_listener]; exact hl, by simp⟩
   unfold idleHandle
   split
-  · exact ⟨by rw [(sendStanza_core s _).1.listener]; exact hl, by simp⟩
   · split
-    · exact ⟨by rw [reject_listener]; exact hl, by simp⟩
+    · exact hrej
+    · exact ⟨by rw [(sendStanza_core s _).1.listener]; exact hl, by simp⟩
+  · split
+    · exact hrej
+    · split
+      · exact hrej
+      · exact ⟨hl, by simp⟩
+  · split
+    · exact hrej
+    · split <;> exact ⟨hl, by simp⟩
+  · split
+    · exact hrej
     · exact ⟨hl, by simp⟩
-  · split <;> exact ⟨hl, by simp⟩
-  · exact ⟨hl, by simp⟩
   · exact idleGuarded_nf s _ hl hnf
 
 theorem step_j (s : St) (e : Ev) (hj : JP s) (hconf : noNegotiationInSession s e) :
@@ -1193,11 +1210,7 @@ theorem step_j (s : St) (e : Ev) (hj : JP s) (hconf : noNegotiationInSession s e
         split
         · exact ⟨fun _ => by rw [hc]; exact hl, by simp⟩
         · exact ⟨fun _ => by show (sendStanza s (.iqRequest false)).1.listener = _; rw [hc]; exact hl, by simp⟩
-      | recvWhitespace =>
-        simp only [step]
-        split
-        · exact ⟨fun _ => hl, by simp⟩
-        · exact ⟨fun _ => by rw [reject_listener]; exact hl, by simp⟩
+      | recvWhitespace => exact ⟨fun _ => hl, by simp [step]⟩
       | recvPartial => simp only [step]; split <;> exact ⟨fun _ => hl, by simp⟩
       | closeTail => exact ⟨fun _ => by show (disconnectFromHost s).1.listener = _; rw [disconnectFromHost_listener]; exact hl, by simp [step]⟩
       | recv el =>
@@ -1472,12 +1485,20 @@ theorem idleGuarded_ck (s : St) (e : El) : CK s (idleGuarded s e) := by
 theorem idleHandle_ck (s : St) (e : El) : CK s (idleHandle s e) := by
   unfold idleHandle
   split
-  · exact ck_same (sendStanza_core s _).1.conn
+  · split
+    · exact reject_ck s
+    · exact ck_same (sendStanza_core s _).1.conn
+  · split
+    · exact reject_ck s
+    · split
+      · exact reject_ck s
+      · exact ck_same rfl
+  · split
+    · exact reject_ck s
+    · split <;> exact ck_same rfl
   · split
     · exact reject_ck s
     · exact ck_same rfl
-  · split <;> exact ck_same rfl
-  · exact ck_same rfl
   · exact idleGuarded_ck s _
 
 theorem starttlsHandle_ck (s : St) (e : El) : CK s (starttlsHandle s e) := by
@@ -1626,16 +1647,7 @@ theorem step_minv (s : St) (e : Ev) (hm : MInv s) : MInv (step s e).1 := by
       show (sendStanza s (.iqRequest false)).1.conn = _
       rw [hc.1.conn]
       exact hm (by rw [← hc.2.1]; exact hss)
-  | recvWhitespace =>
-    simp only [step]
-    split
-    · exact hm
-    · rename_i hcw
-      have hc : s.conn = .connected := by
-        by_cases hc : s.conn = .connected
-        · exact hc
-        · exact absurd (Or.inl hc) hcw
-      exact useCk _ hc (reject_ck s)
+  | recvWhitespace => exact hm
   | recvPartial => simp only [step]; split <;> exact hm
   | closeTail =>
     by_cases hc : s.conn = .connected
@@ -1752,7 +1764,7 @@ theorem ph_features_sasl {c enc auth sess s} (m : Mech) (u : Used) (h : Ph c enc
   obtain ⟨h1, h2, h3, h4, h5, h6, h7, h8⟩ := h
   have e : step s (.recv (.features (featMech m))) = ({ s with listener := .sasl u true }, [send s (.saslAuth u)]) := by
     simp only [featMech] at hst
-    simp [step, recv, h2, h3, hh, dispatch, h5, idleHandle, idleGuarded, El.isStanza, idleHandle', handleFeatures, hst, h1, hsasl, startSasl, hu, featMech]
+    simp [step, recv, h2, h3, hh, dispatch, h5, idleHandle, idleGuarded, El.isStreamLevel, St.preTls, idleHandle', handleFeatures, hst, h1, hsasl, startSasl, hu, featMech]
   rw [e]
   exact ⟨⟨h1, h2, h3, h4, rfl, h6, h7, h8⟩, hh, by simp, by simp, rfl⟩
 
@@ -1799,7 +1811,7 @@ theorem ph_features_bindSm {c enc auth sess s} (sm : Bool) (h : Ph c enc .idle a
     have e : step s (.recv (.features (featBind true))) =
         ({ s with bindAvail := true, smAvail := true, csiAvail := false, listener := .smResume },
          [send { s with bindAvail := true, smAvail := true, csiAvail := false } .smResume]) := by
-      simp [step, recv, h2, h3, hh, dispatch, h5, idleHandle, idleGuarded, El.isStanza, idleHandle', handleFeatures, hst, featBind, hsme, hr'.1, hr'.2,
+      simp [step, recv, h2, h3, hh, dispatch, h5, idleHandle, idleGuarded, El.isStreamLevel, St.preTls, idleHandle', handleFeatures, hst, featBind, hsme, hr'.1, hr'.2,
         startSmResume]
     rw [e, if_pos hr]
     exact ⟨⟨h1, h2, h3, h4, rfl, h6, h7, h8⟩, hh, by simp, by simp, rfl, rfl, hsme⟩
@@ -1808,7 +1820,7 @@ theorem ph_features_bindSm {c enc auth sess s} (sm : Bool) (h : Ph c enc .idle a
         ({ s with bindAvail := true, smAvail := sm, csiAvail := false, listener := .bind },
          [send { s with bindAvail := true, smAvail := sm, csiAvail := false } .bind]) := by
       have : ¬ (sm = true ∧ s.smEnabled = false ∧ s.canResume = true) := fun h => hr' ⟨h.1, h.2.2⟩
-      simp [step, recv, h2, h3, hh, dispatch, h5, idleHandle, idleGuarded, El.isStanza, idleHandle', handleFeatures, hst, featBind, this, startBind]
+      simp [step, recv, h2, h3, hh, dispatch, h5, idleHandle, idleGuarded, El.isStreamLevel, St.preTls, idleHandle', handleFeatures, hst, featBind, this, startBind]
     rw [e, if_neg hr]
     exact ⟨⟨h1, h2, h3, h4, rfl, h6, h7, h8⟩, hh, by simp, by simp, rfl, rfl, hsme⟩
 
@@ -1958,7 +1970,7 @@ theorem ph_features_sasl2fast {c enc auth sess s} (h : Ph c enc .idle auth sess 
   obtain ⟨h1, h2, h3, h4, h5, h6, h7, h8⟩ := h
   have e : (step s (.recv (.features { sasl2 := some s2zFast }))).1 =
       { s with bind2InactiveSet := s.cfg.inactive, tokenRequested := false, listener := .sasl2 .ht true } := by
-    simp [step, recv, h2, h3, hh, dispatch, h5, idleHandle, idleGuarded, El.isStanza, idleHandle', handleFeatures, hst, h1, hs2, startSasl2, s2zFast, hua, htok]
+    simp [step, recv, h2, h3, hh, dispatch, h5, idleHandle, idleGuarded, El.isStreamLevel, St.preTls, idleHandle', handleFeatures, hst, h1, hs2, startSasl2, s2zFast, hua, htok]
   rw [e]
   exact ⟨⟨h1, h2, h3, h4, rfl, h6, h7, h8⟩, hh⟩
 
@@ -1974,7 +1986,7 @@ theorem start_after_redirect {c cr s} (h : Ph c false .idle false false s) (hcr 
   have e : step s (.recv (.streamError true)) =
       ({ s with redirect := false, conn := .connecting, encrypted := false, authenticated := false },
        [send { s with redirect := true } .streamClose]) := by
-    simp [step, recv, h2, h3, hh, dispatch, h5, idleHandle, idleGuarded, El.isStanza, idleHandle', socketClose, onSocketDisconnected, h7, h6]
+    simp [step, recv, h2, h3, hh, dispatch, h5, idleHandle, idleGuarded, El.isStreamLevel, St.preTls, idleHandle', socketClose, onSocketDisconnected, h7, h6]
   rw [e]
   refine ⟨by simp, by simp, h7, ?_, ?_, ?_⟩
   · simp [step, handleStart]
@@ -2297,15 +2309,23 @@ theorem idleHandle_aok (s : St) (e : El) (hc : s.conn = .connected) (hl : s.list
   have same : AOk s (s, ([] : List Out)) := Or.inr (Or.inr ⟨rfl, rfl, by rw [hl]; exact notL3_idle⟩)
   unfold idleHandle
   split
-  · have c := sendStanza_core s (.iqReply false)
-    exact Or.inr (Or.inr ⟨c.1.authenticated, c.2.1, by rw [c.1.listener, hl]; exact notL3_idle⟩)
   · split
     · exact Or.inl (closed_reject s hc)
-    · exact Or.inr (Or.inr ⟨rfl, rfl, by rw [hl]; exact notL3_idle⟩)
+    · have c := sendStanza_core s (.iqReply false)
+      exact Or.inr (Or.inr ⟨c.1.authenticated, c.2.1, by rw [c.1.listener, hl]; exact notL3_idle⟩)
   · split
-    · exact Or.inr (Or.inr ⟨rfl, rfl, by rw [hl]; exact notL3_idle⟩)
+    · exact Or.inl (closed_reject s hc)
+    · split
+      · exact Or.inl (closed_reject s hc)
+      · exact Or.inr (Or.inr ⟨rfl, rfl, by rw [hl]; exact notL3_idle⟩)
+  · split
+    · exact Or.inl (closed_reject s hc)
+    · split
+      · exact Or.inr (Or.inr ⟨rfl, rfl, by rw [hl]; exact notL3_idle⟩)
+      · exact same
+  · split
+    · exact Or.inl (closed_reject s hc)
     · exact same
-  · exact same
   · rename_i h1 h2 h3 h4
     refine idleGuarded_aok s _ hc hl ?_
     cases e <;> first | exact hd | trivial
@@ -2455,16 +2475,7 @@ theorem step_ainv (s : St) (e : Ev) (hi : AInv s) (hm : MInv s) (hd : demandsAut
     split
     · exact key
     · exact key
-  | recvWhitespace =>
-    simp only [step]
-    split
-    · exact hi
-    · rename_i hcw
-      have hc : s.conn = .connected := by
-        by_cases hc : s.conn = .connected
-        · exact hc
-        · exact absurd (Or.inl hc) hcw
-      exact ainv_of_aok (s := s) (Or.inl (closed_reject s hc)) hi
+  | recvWhitespace => exact hi
   | recvPartial => simp only [step]; split <;> exact ⟨hi.1, hi.2⟩
   | closeTail =>
     by_cases hc : s.conn = .connected
@@ -2535,10 +2546,7 @@ theorem nc_step (s : St) (e : Ev) (hnc : NC s) (h3 : appWaits s e) :
     · split
       · exact nc_of_not_connected (by simp)
       · exact hnc
-  | recvWhitespace =>
-    left; simp only [step]; split
-    · exact hnc
-    · exact (reject_nc s hnc).2
+  | recvWhitespace => left; exact hnc
   | recvPartial => left; simp only [step]; split
                    · exact hnc
                    · exact nc_upd hnc rfl rfl
@@ -2566,7 +2574,7 @@ theorem clear_step_nC0 (s : St) (e : Ev) (hreq : s.cfg.tls = .required) (hclear 
   | socketError => simp [step]
   | socketDisconnected => simp only [step]; cnt_crush
   | sendIq => exact absurd h3 hclear
-  | recvWhitespace => simp only [step]; split <;> simp
+  | recvWhitespace => simp [step]
   | recvPartial => simp only [step]; split <;> simp
   | closeTail => simp [step]
   | recv el =>
@@ -2585,13 +2593,13 @@ theorem clear_step_nC0 (s : St) (e : Ev) (hreq : s.cfg.tls = .required) (hclear 
             · rw [hl]
               by_cases hf : ∃ f, el = .features f
               · obtain ⟨f, rfl⟩ := hf
-                simp only [idleHandle, idleGuarded, El.isStanza, Bool.false_eq_true, false_and, if_false, idleHandle', handleFeatures]
+                simp only [idleHandle, idleGuarded, El.isStreamLevel, St.preTls, Bool.false_eq_true, false_and, if_false, idleHandle', handleFeatures]
                 rcases handleStarttls_required s f hreq he with h | h <;> rw [h] <;> simp
               · exact (idleHandle_nf s el hl (fun f hf' => hf ⟨f, hf'⟩)).2
             · rw [hl]
               exact nC_starttlsHandle s el
 
-theorem step_ginv (s : St) (e : Ev) (hreq : s.cfg.tls = .required) (hg : GInv s) (h2 : noEarlyBypass s e)
+theorem step_ginv (s : St) (e : Ev) (hreq : s.cfg.tls = .required) (hg : GInv s)
     (ha : appUsesSession s e) :
     (∀ o ∈ (step s e).2, o.clearOk) ∧ GInv (step s e).1 := by
   obtain ⟨hinv, hm, hs3⟩ := hg
@@ -2613,7 +2621,7 @@ theorem step_ginv (s : St) (e : Ev) (hreq : s.cfg.tls = .required) (hg : GInv s)
     | recvWhitespace => trivial
     | recvPartial => trivial
     | closeTail => trivial
-  have hsafe := step_safe s e hreq hinv h2 h3
+  have hsafe := step_safe s e hreq hinv h3
   refine ⟨hsafe.1, hsafe.2, step_minv s e hm, ?_⟩
   intro hpost
   by_cases hnc : NC s
@@ -2635,12 +2643,12 @@ theorem step_ginv (s : St) (e : Ev) (hreq : s.cfg.tls = .required) (hg : GInv s)
     · exact he.2.2.1
 
 theorem run_ginv (evs : List Ev) (s : St) (hreq : s.cfg.tls = .required) (hg : GInv s)
-    (h2 : Along noEarlyBypass s evs) (ha : Along appUsesSession s evs) : (∀ o ∈ (run s evs).2, o.clearOk) ∧ GInv (run s evs).1 := by
+    (ha : Along appUsesSession s evs) : (∀ o ∈ (run s evs).2, o.clearOk) ∧ GInv (run s evs).1 := by
   induction evs generalizing s with
   | nil => exact ⟨fun o ho => (by cases ho), hg⟩
   | cons e es ih =>
-    have h1 := step_ginv s e hreq hg h2.1 ha.1
-    have h2' := ih (step s e).1 (by simpa using hreq) h1.2 h2.2 ha.2
+    have h1 := step_ginv s e hreq hg ha.1
+    have h2' := ih (step s e).1 (by simpa using hreq) h1.2 ha.2
     refine ⟨?_, h2'.2⟩
     intro o ho
     simp only [run] at ho
@@ -2766,11 +2774,7 @@ theorem el_entered_only_by_a_write (s : St) (e : Ev) (hpre : ¬ EL s.listener) (
     split
     · rw [hc]; exact hpre
     · show ¬ EL (sendStanza s (.iqRequest false)).1.listener; rw [hc]; exact hpre
-  | recvWhitespace =>
-    exfalso; revert hpost; simp only [step]
-    split
-    · exact hpre
-    · rw [reject_listener]; exact hpre
+  | recvWhitespace => exact absurd hpost hpre
   | recvPartial => exfalso; revert hpost; simp only [step]; split <;> exact hpre
   | closeTail => exfalso; revert hpost; show ¬ EL (disconnectFromHost s).1.listener; rw [disconnectFromHost_listener]; exact hpre
   | recv el =>
@@ -2862,7 +2866,7 @@ theorem session_opened_from (s : St) (e : Ev) (h : nC (step s e).2 ≠ 0) :
   | socketError => exfalso; apply h; simp [step]
   | socketDisconnected => exfalso; apply h; simp only [step]; cnt_crush
   | sendIq => exfalso; apply h; simp only [step, sendIq]; cnt_crush
-  | recvWhitespace => exfalso; apply h; simp only [step]; split <;> simp
+  | recvWhitespace => exfalso; apply h; simp [step]
   | recvPartial => exfalso; apply h; simp only [step]; split <;> simp
   | closeTail => exfalso; apply h; simp [step]
   | recv el =>
